@@ -48,6 +48,11 @@ pub fn scenario(g: &mut Gen) -> Scenario {
         avail.push(name);
     }
     if g.rng.chance(1, 2) {
+        // (sometimes with a well-formed sibling under the name `render` falls back to when `broken`
+        // cannot be had -- under every store policy alike)
+        if g.rng.chance(1, 3) {
+            partials.push(("broken.liquid".into(), Ok(vec![text("<dotted-broken>"), out(var("x"))])));
+        }
         partials.push(("broken".into(), Err("{% if %}x{{".into())));
     }
     // names that differ only by the `.liquid` suffix `render` falls back to
